@@ -11,10 +11,13 @@
      (`./x/y`, `../y`) keeps its last segment and is a recipe reference;
    - a quantity scales linearly exactly when it belongs to an ingredient, is a number or a range
      and has no `=` lock; otherwise it is fixed; cookware quantities have no unit;
-   - a component with the `&` modifier refers to the last earlier definition of the same name
+   - a component that is a reference refers to the last earlier definition of the same name
      (names compared through the case folding [ci]); it inherits the definition's
-     recipe/hidden/optional modifiers (hidden/optional for cookware) and the definition records
-     the back link, in order;
+     recipe/hidden/optional modifiers (hidden/optional for cookware), carries the reference modifier,
+     and the definition records the back link, in order.  Which occurrences are references depends on the
+     modes in force ([tag_of]): one written with `+` never is; otherwise one written with `&` is, every one
+     is in steps mode, and in duplicate-reference mode one is exactly when an earlier definition of its
+     name exists;
    - steps are numbered 1, 2, .. inside each section; text blocks are not numbered; the lines
      of a `>` block are joined by one blank;
    - a section line closes the current section; the section before the first section line has
@@ -25,13 +28,27 @@
      list of sections; such an entry takes part in no name lookup;
    - with INLINE_QUANTITIES ([inline]) a text piece of a step is cut at every quantity the converter finds
      in it ([find_iq], an oracle: text before the quantity, text after it): the text before, an inline
-     quantity item (numbered in document order), and so on with the rest.
-   Not covered by [denote] (excluded by [adoc_ok]): mode switches (`>> [mode]: ..`).
+     quantity item (numbered in document order), and so on with the rest;
+   - with MODES ([modes]) a `>>` entry whose cleaned key is `[mode]` / `[define]` or `[duplicate]` is a mode
+     switch ([config_of], [next_mode]) for the blocks after it:
+       all | default            the reading above;
+       components | ingredients a step block only lists components: they enter the tables (a definition is
+                                marked "not defined in a step"), its text is omitted, it is no step of the
+                                section and takes no step number; `>` blocks stay;
+       steps                    every component without `+` is a reference;
+       text                     a step block is a text block: its text pieces and its components as written
+                                (the source of the component without its comments), no table entry;
+       [duplicate]: new | default / reference | ref   see references above.
+     A `[..]` key that is none of the three changes nothing (the code warns).  The three mode keys are not
+     entries of the metadata map ([kept_entries]); every other `>>` entry is.
    The recipe structure of Model/Analysis.v keeps of a quantity its value, whether it is text, whether it is
    fixed, and its unit.  The value is stated here from the document ([value_of] of the printer's document
    value, Model/Printer.v [denote_value]: the decimal written, exactly; `w a/b` as w + a/b; both ends of a
    range; the cleaned text), so the recipe-level round trip covers the numbers, not only the event-level one
-   (C01_events_roundtrip). *)
+   (C01_events_roundtrip).
+   The class proved ([adoc_ok]) excludes the switch to text mode: there the collector copies the source range
+   of each component, and the printer theorems say nothing about spans; [denote] states that reading all the
+   same and it is compared with the implementation on examples (Properties/C01.v). *)
 From CL Require Export Model.Printer.
 From CL Require Model.Events Model.Analysis.
 
@@ -68,8 +85,76 @@ Definition is_tm (c : cspec) : bool := match cs_kind c with CTm => true | _ => f
 
 Definition cs_mod_set (c : cspec) : Events.modifiers := Events.mods_of_bits (mods_bits (cs_mods c)).
 
-(* the table entry of an ingredient or cookware occurrence, before references are resolved *)
-Definition raw_comp (c : cspec) : Analysis.component :=
+(* ---------------------------------------------------------------- mode switches *)
+(* the modes in force: how step blocks are read ([Analysis.define_mode] is used as the plain enumeration
+   all / components / steps / text) and whether a repeated name is a reference *)
+Record mode := { md_define : Analysis.define_mode; md_dupref : bool }.
+Definition mode0 : mode := {| md_define := Analysis.DMAll; md_dupref := false |}.
+
+Definition in_components (m : mode) : bool := match md_define m with Analysis.DMComponents => true | _ => false end.
+Definition in_steps (m : mode) : bool := match md_define m with Analysis.DMSteps => true | _ => false end.
+Definition in_text_mode (m : mode) : bool := match md_define m with Analysis.DMText => true | _ => false end.
+
+Definition bracketed (k : str) : bool :=
+  match k, rev k with c :: _, e :: _ => (c =? 91) && (e =? 93) | _, _ => false end.
+
+(* the words of extensions.md, section Modes *)
+Definition w_mode : str := [109;111;100;101].
+Definition w_define : str := [100;101;102;105;110;101].
+Definition w_duplicate : str := [100;117;112;108;105;99;97;116;101].
+Definition w_all : str := [97;108;108].
+Definition w_default : str := [100;101;102;97;117;108;116].
+Definition w_components : str := [99;111;109;112;111;110;101;110;116;115].
+Definition w_ingredients : str := [105;110;103;114;101;100;105;101;110;116;115].
+Definition w_steps : str := [115;116;101;112;115].
+Definition w_text : str := [116;101;120;116].
+Definition w_new : str := [110;101;119].
+Definition w_reference : str := [114;101;102;101;114;101;110;99;101].
+Definition w_ref : str := [114;101;102].
+
+Definition one_of (s : str) (l : list str) : bool := existsb (str_eqb s) l.
+
+(* what a `>>` entry with a `[..]` key says: [k] the cleaned key, [v] the trimmed value.
+   None: not a config entry; CfBad: a mode key with a value that is none of the documented ones (an error of
+   the code); CfUnknown: another `[..]` key (a warning of the code, no effect) *)
+Inductive config := CfDefine (d : Analysis.define_mode) | CfDup (r : bool) | CfBad | CfUnknown.
+
+Definition config_of (k v : str) : option config :=
+  if bracketed k then
+    let ck := removelast (tl k) in      (* the key between the brackets, as it is: `[ mode ]` is not `[mode]` *)
+    Some (if one_of ck [w_define; w_mode] then
+            if one_of v [w_all; w_default] then CfDefine Analysis.DMAll
+            else if one_of v [w_components; w_ingredients] then CfDefine Analysis.DMComponents
+            else if str_eqb v w_steps then CfDefine Analysis.DMSteps
+            else if str_eqb v w_text then CfDefine Analysis.DMText
+            else CfBad
+          else if str_eqb ck w_duplicate then
+            if one_of v [w_new; w_default] then CfDup false
+            else if one_of v [w_reference; w_ref] then CfDup true
+            else CfBad
+          else CfUnknown)
+  else None.
+
+Definition block_config (b : block) : option config :=
+  match b with
+  | BkMeta k v => config_of (clean (toks_text k)) (trim (toks_text v))
+  | _ => None
+  end.
+
+(* the modes after a block; [modes]: the MODES extension is on *)
+Definition next_mode (modes : bool) (m : mode) (b : block) : mode :=
+  if modes then
+    match block_config b with
+    | Some (CfDefine d) => {| md_define := d; md_dupref := md_dupref m |}
+    | Some (CfDup r) => {| md_define := md_define m; md_dupref := r |}
+    | _ => m
+    end
+  else m.
+
+(* ---------------------------------------------------------------- table entries *)
+(* the table entry of an ingredient or cookware occurrence, before references are resolved; in components
+   mode a definition is not "defined in a step" *)
+Definition raw_comp (m : mode) (c : cspec) : Analysis.component :=
   let name0 := clean (toks_text (cs_name c)) in
   let isp := is_igr c && Analysis.is_path_name name0 in
   {| Analysis.c_name := if isp then Analysis.last_segment name0 [] else name0;
@@ -78,7 +163,7 @@ Definition raw_comp (c : cspec) : Analysis.component :=
      Analysis.c_note := option_map (fun n => clean (toks_text n)) (cs_note c);
      Analysis.c_rref := isp;
      Analysis.c_mods := cs_mod_set c;
-     Analysis.c_rel := Analysis.RDef [] true |}.
+     Analysis.c_rel := Analysis.RDef [] (negb (in_components m)) |}.
 
 Definition raw_timer (c : cspec) : Analysis.rtimer :=
   {| Analysis.tm_name := if str_blank (toks_text (cs_name c)) then None else Some (clean (toks_text (cs_name c)));
@@ -87,6 +172,9 @@ Definition raw_timer (c : cspec) : Analysis.rtimer :=
 (* ---------------------------------------------------------------- references *)
 Definition is_def (c : Analysis.component) : bool :=
   match Analysis.c_rel c with Analysis.RDef _ _ => true | Analysis.RRef _ _ => false end.
+Definition def_in_step (c : Analysis.component) : bool :=
+  match Analysis.c_rel c with Analysis.RDef _ dis => dis | Analysis.RRef _ _ => true end.
+Definition has_qty (c : Analysis.component) : bool := Events.is_some (Analysis.c_qty c).
 
 (* the index of the last element satisfying p *)
 Fixpoint last_index {A} (p : A -> bool) (l : list A) (i : nat) (acc : option nat) : option nat :=
@@ -94,6 +182,21 @@ Fixpoint last_index {A} (p : A -> bool) (l : list A) (i : nat) (acc : option nat
   | [] => acc
   | a :: r => last_index p r (S i) (if p a then Some i else acc)
   end.
+
+(* an occurrence on its way into a table: [en_inter] says "carries intermediate-reference data" (then no name
+   lookup takes place), [en_mode] the modes in force where it stands *)
+Record entry := { en_inter : bool; en_mode : mode; en_comp : Analysis.component }.
+
+(* how an occurrence is read: TDef a definition; TRef a reference (there must be a definition); TDup a reference
+   if there is an earlier definition of the name, a definition otherwise *)
+Inductive etag := TInter | TDef | TRef | TDup.
+Definition tag_of (e : entry) : etag :=
+  if en_inter e then TInter
+  else let ms := Analysis.c_mods (en_comp e) in
+       if Events.m_new ms then TDef
+       else if Events.m_ref ms || in_steps (en_mode e) then TRef
+       else if md_dupref (en_mode e) then TDup
+       else TDef.
 
 Section Refs.
   Variable ci : str -> str.                    (* case folding of names *)
@@ -113,51 +216,55 @@ Section Refs.
       (Events.mods_or (Events.mods_or (Analysis.c_mods raw) (Events.mods_and (Analysis.c_mods def) inherit)) Events.M_ref_only)
       (Analysis.RRef j Analysis.TgComponent).
 
-  (* the table after one more occurrence *)
+  (* the table after a reference to the last earlier definition of the name, if there is one *)
   Definition add_comp (tbl : list Analysis.component) (raw : Analysis.component) : list Analysis.component :=
-    if Events.m_ref (Analysis.c_mods raw) then
-      match find_def tbl (Analysis.c_name raw) with
-      | Some j =>
-          match nth_error tbl j with
-          | Some def => Analysis.upd_nth tbl j (add_backlink def (length tbl)) ++ [as_reference raw def j]
-          | None => tbl ++ [raw]
-          end
-      | None => tbl ++ [raw]
-      end
-    else tbl ++ [raw].
+    match find_def tbl (Analysis.c_name raw) with
+    | Some j =>
+        match nth_error tbl j with
+        | Some def => Analysis.upd_nth tbl j (add_backlink def (length tbl)) ++ [as_reference raw def j]
+        | None => tbl ++ [raw]
+        end
+    | None => tbl ++ [raw]
+    end.
 
-  (* a reference is well formed: there is an earlier definition of that name; no `+` (new) with `&`;
-     no note; no modifier of its own that the definition does not have *)
-  Definition ref_ok (tbl : list Analysis.component) (raw : Analysis.component) : bool :=
-    if Events.m_ref (Analysis.c_mods raw) then
-      negb (Events.m_new (Analysis.c_mods raw)) &&
-      match find_def tbl (Analysis.c_name raw) with
-      | Some j =>
-          match nth_error tbl j with
-          | Some def =>
-              negb (Events.is_some (Analysis.c_note raw)) &&
-              Events.mods_is_empty
-                (Events.mods_diff (Events.mods_diff (Analysis.c_mods raw) (Events.mods_and (Analysis.c_mods def) inherit))
-                   Events.M_ref_only)
-          | None => false
-          end
-      | None => false
-      end
-    else true.
+  (* the table after one more occurrence *)
+  Definition add_entry (tbl : list Analysis.component) (e : entry) : list Analysis.component :=
+    match tag_of e with
+    | TInter | TDef => tbl ++ [en_comp e]
+    | TRef | TDup => add_comp tbl (en_comp e)
+    end.
 
-  (* an entry: the flag says "carries intermediate-reference data" (then no name lookup takes place) *)
-  Definition add_entry (tbl : list Analysis.component) (e : bool * Analysis.component) : list Analysis.component :=
-    if fst e then tbl ++ [snd e] else add_comp tbl (snd e).
-  Definition entry_ok (tbl : list Analysis.component) (e : bool * Analysis.component) : bool :=
-    if fst e then true else ref_ok tbl (snd e).
+  (* a reference is well formed against its definition: no note; no modifier of its own that the definition
+     does not have; no quantity when the definition has one and stands in a components-mode list *)
+  Definition link_ok (raw def : Analysis.component) : bool :=
+    negb (Events.is_some (Analysis.c_note raw)) &&
+    Events.mods_is_empty
+      (Events.mods_diff (Events.mods_diff (Analysis.c_mods raw) (Events.mods_and (Analysis.c_mods def) inherit))
+         Events.M_ref_only) &&
+    negb (has_qty def && has_qty raw && negb (def_in_step def)).
 
-  Fixpoint refs_ok (tbl : list Analysis.component) (es : list (bool * Analysis.component)) : bool :=
+  Definition found_ok (tbl : list Analysis.component) (raw : Analysis.component) (unless_none : bool) : bool :=
+    match find_def tbl (Analysis.c_name raw) with
+    | Some j => match nth_error tbl j with Some def => link_ok raw def | None => false end
+    | None => unless_none
+    end.
+
+  (* an occurrence is well formed: never `+` together with `&`; a reference has its definition *)
+  Definition entry_ok (tbl : list Analysis.component) (e : entry) : bool :=
+    match tag_of e with
+    | TInter => true
+    | TDef => negb (Events.m_new (Analysis.c_mods (en_comp e)) && Events.m_ref (Analysis.c_mods (en_comp e)))
+    | TRef => found_ok tbl (en_comp e) false
+    | TDup => found_ok tbl (en_comp e) true
+    end.
+
+  Fixpoint refs_ok (tbl : list Analysis.component) (es : list entry) : bool :=
     match es with
     | [] => true
     | e :: rest => entry_ok tbl e && refs_ok (add_entry tbl e) rest
     end.
 
-  Definition table (tbl : list Analysis.component) (es : list (bool * Analysis.component)) : list Analysis.component :=
+  Definition table (tbl : list Analysis.component) (es : list entry) : list Analysis.component :=
     fold_left add_entry es tbl.
 End Refs.
 
@@ -192,14 +299,15 @@ Definition inter_rel (k : ictx) (rel sec : bool) (v : N) : option Analysis.relat
         option_map (fun i => Analysis.RRef i Analysis.TgStep) (nth_error (if rel then rev ps else ps) v1)
   end.
 
-Definition entry (k : ictx) (c : cspec) : bool * Analysis.component :=
+Definition mk_entry (m : mode) (k : ictx) (c : cspec) : entry :=
   match mods_inter (cs_mods c) with
   | Some (rel, sec, v) =>
-      (true, match inter_rel k rel sec v with
-             | Some r => Analysis.set_rel (raw_comp c) r
-             | None => raw_comp c
-             end)
-  | None => (false, raw_comp c)
+      {| en_inter := true; en_mode := m;
+         en_comp := match inter_rel k rel sec v with
+                    | Some r => Analysis.set_rel (raw_comp m c) r
+                    | None => raw_comp m c
+                    end |}
+  | None => {| en_inter := false; en_mode := m; en_comp := raw_comp m c |}
   end.
 
 (* ---------------------------------------------------------------- steps, sections *)
@@ -207,24 +315,30 @@ Definition item_comps (l : list item) : list cspec :=
   flat_map (fun i => match i with IComp c => [c] | IText _ => [] end) l.
 Definition block_comps (b : block) : list cspec :=
   match b with BkStep items => item_comps items | _ => [] end.
-Definition doc_comps (d : list block) : list cspec := flat_map block_comps d.
 
-Definition next_ctx (k : ictx) (b : block) : ictx :=
+(* a component as written, without its comments; a step block read as text (text mode) *)
+Definition is_comment_k (k : tkind) : bool := match k with KLineComment | KBlockComment => true | _ => false end.
+Definition written (p : list ptok) : str := concat (map snd (filter (fun t => negb (is_comment_k (fst t))) p)).
+Definition items_written (l : list item) : str :=
+  concat (map (fun i => match i with IText t => toks_text t | IComp c => written (print_comp c) end) l).
+Definition text_content (tx : str) : list Analysis.content := if is_nil tx then [] else [Analysis.CText tx].
+
+Definition next_ctx (m : mode) (k : ictx) (b : block) : ictx :=
   match b with
   | BkMeta _ _ => k
   | BkSection _ _ _ _ =>
       {| ic_kinds := [];
          ic_nsecs := if negb (ic_named k) && is_nil (ic_kinds k) then ic_nsecs k else S (ic_nsecs k);
          ic_named := true |}
-  | BkStep _ => {| ic_kinds := ic_kinds k ++ [true]; ic_nsecs := ic_nsecs k; ic_named := ic_named k |}
+  | BkStep items =>
+      match md_define m with
+      | Analysis.DMComponents => k
+      | Analysis.DMText =>
+          {| ic_kinds := ic_kinds k ++ map (fun _ => false) (text_content (items_written items));
+             ic_nsecs := ic_nsecs k; ic_named := ic_named k |}
+      | _ => {| ic_kinds := ic_kinds k ++ [true]; ic_nsecs := ic_nsecs k; ic_named := ic_named k |}
+      end
   | BkText _ => {| ic_kinds := ic_kinds k ++ [false]; ic_nsecs := ic_nsecs k; ic_named := ic_named k |}
-  end.
-
-(* the table entries of one kind ([sel]) in document order, each made in the context of its step *)
-Fixpoint doc_entries (sel : cspec -> bool) (d : list block) (k : ictx) : list (bool * Analysis.component) :=
-  match d with
-  | [] => []
-  | b :: r => map (entry k) (filter sel (block_comps b)) ++ doc_entries sel r (next_ctx k b)
   end.
 
 (* how many entries each table has so far; [n_q]: inline quantities *)
@@ -237,6 +351,10 @@ Definition comp_item (c : cspec) (k : cnt) : Analysis.item * cnt :=
   | CCw => (Analysis.ICookware (n_c k), {| n_i := n_i k; n_c := S (n_c k); n_t := n_t k; n_q := n_q k |})
   | CTm => (Analysis.ITimer (n_t k), {| n_i := n_i k; n_c := n_c k; n_t := S (n_t k); n_q := n_q k |})
   end.
+
+(* the counters after the components of a components-mode block *)
+Definition comps_cnt (items : list item) (k : cnt) : cnt :=
+  fold_left (fun k c => snd (comp_item c k)) (item_comps items) k.
 
 Section Inline.
   Variable find_iq : str -> option (str * str).   (* find_inline_quantity: text before, text after *)
@@ -293,47 +411,91 @@ Definition close_section (name : option str) (content : list Analysis.content) :
 Section Sections.
   Variable find_iq : str -> option (str * str).
   Variable inline : bool.
+  Variable modes : bool.                          (* MODES *)
+
+  (* the table entries of one kind ([sel]) in document order, each made in the modes and the context of its
+     step; a text-mode block has none *)
+  Fixpoint doc_entries (sel : cspec -> bool) (d : list block) (m : mode) (k : ictx) : list entry :=
+    match d with
+    | [] => []
+    | b :: r =>
+        (if in_text_mode m then [] else map (mk_entry m k) (filter sel (block_comps b)))
+        ++ doc_entries sel r (next_mode modes m b) (next_ctx m k b)
+    end.
+
+  (* the components that are read as components *)
+  Fixpoint live_comps (d : list block) (m : mode) : list cspec :=
+    match d with
+    | [] => []
+    | b :: r => (if in_text_mode m then [] else block_comps b) ++ live_comps r (next_mode modes m b)
+    end.
 
   (* [name], [content], [num]: the section being filled and the number of its next step *)
-  Fixpoint sections_of (d : list block) (name : option str) (content : list Analysis.content) (num : nat) (k : cnt)
+  Fixpoint sections_of (d : list block) (m : mode) (name : option str) (content : list Analysis.content) (num : nat) (k : cnt)
     : list Analysis.section :=
     match d with
     | [] => close_section name content
-    | BkMeta _ _ :: r => sections_of r name content num k
-    | BkSection _ nm _ _ :: r =>
-        close_section name content ++ sections_of r (Some (clean (toks_text nm))) [] 1 k
-    | BkStep items :: r =>
-        let '(its, k') := step_items find_iq inline items k in
-        sections_of r name (content ++ [Analysis.CStep {| Analysis.st_items := its; Analysis.st_number := num |}]) (S num) k'
-    | BkText ls :: r =>
-        sections_of r name (content ++ [Analysis.CText (tlines_text ls)]) num k
+    | b :: r =>
+        let m' := next_mode modes m b in
+        match b with
+        | BkMeta _ _ => sections_of r m' name content num k
+        | BkSection _ nm _ _ =>
+            close_section name content ++ sections_of r m' (Some (clean (toks_text nm))) [] 1 k
+        | BkStep items =>
+            match md_define m with
+            | Analysis.DMComponents => sections_of r m' name content num (comps_cnt items k)
+            | Analysis.DMText => sections_of r m' name (content ++ text_content (items_written items)) num k
+            | _ =>
+                let '(its, k') := step_items find_iq inline items k in
+                sections_of r m' name (content ++ [Analysis.CStep {| Analysis.st_items := its; Analysis.st_number := num |}]) (S num) k'
+            end
+        | BkText ls =>
+            sections_of r m' name (content ++ [Analysis.CText (tlines_text ls)]) num k
+        end
     end.
 
   (* the number of inline quantities of the document *)
-  Fixpoint inline_count (d : list block) (k : cnt) : nat :=
+  Fixpoint inline_count (d : list block) (m : mode) (k : cnt) : nat :=
     match d with
     | [] => n_q k
-    | BkStep items :: r => inline_count r (snd (step_items find_iq inline items k))
-    | _ :: r => inline_count r k
+    | b :: r =>
+        let m' := next_mode modes m b in
+        match b with
+        | BkStep items =>
+            match md_define m with
+            | Analysis.DMComponents => inline_count r m' (comps_cnt items k)
+            | Analysis.DMText => inline_count r m' k
+            | _ => inline_count r m' (snd (step_items find_iq inline items k))
+            end
+        | _ => inline_count r m' k
+        end
     end.
 End Sections.
 
-Definition denote (ci : str -> str) (find_iq : str -> option (str * str)) (inline : bool) (d : list block) : Analysis.recipe :=
-  let cs := doc_comps d in
-  {| Analysis.r_sections := sections_of find_iq inline d None [] 1 cnt0;
-     Analysis.r_ingredients := table ci inherit_igr [] (doc_entries is_igr d ictx0);
-     Analysis.r_cookware := table ci inherit_cw [] (doc_entries is_cw d ictx0);
-     Analysis.r_timers := map raw_timer (filter is_tm cs);
-     Analysis.r_inline := inline_count find_iq inline d cnt0 |}.
+Definition denote (ci : str -> str) (find_iq : str -> option (str * str)) (inline modes : bool) (d : list block) : Analysis.recipe :=
+  {| Analysis.r_sections := sections_of find_iq inline modes d mode0 None [] 1 cnt0;
+     Analysis.r_ingredients := table ci inherit_igr [] (doc_entries modes is_igr d mode0 ictx0);
+     Analysis.r_cookware := table ci inherit_cw [] (doc_entries modes is_cw d mode0 ictx0);
+     Analysis.r_timers := map raw_timer (filter is_tm (live_comps modes d mode0));
+     Analysis.r_inline := inline_count find_iq inline modes d mode0 cnt0 |}.
 
 (* the metadata entries, in order: cleaned key, trimmed value *)
 Definition meta_entries (d : list block) : list (str * str) :=
   flat_map (fun b => match b with BkMeta k v => [(clean (toks_text k), trim (toks_text v))] | _ => [] end) d.
 
-(* ---------------------------------------------------------------- the class covered *)
-Definition bracketed (k : str) : bool :=
-  match k, rev k with c :: _, e :: _ => (c =? 91) && (e =? 93) | _, _ => false end.
+(* a `>>` entry that is one of the three mode keys while MODES is on: it is not an entry of the metadata map *)
+Definition mode_key (modes : bool) (k : str) : bool :=
+  modes && bracketed k &&
+  (let ck := removelast (tl k) in str_eqb ck w_define || str_eqb ck w_mode || str_eqb ck w_duplicate).
 
+(* the entries of the metadata map, in order: every `>>` entry that is not a mode switch (cleaned key, trimmed value) *)
+Definition kept_entries (modes : bool) (d : list block) : list (str * str) :=
+  flat_map (fun b => match b with
+                     | BkMeta k v => if mode_key modes (clean (toks_text k)) then [] else [(clean (toks_text k), trim (toks_text v))]
+                     | _ => []
+                     end) d.
+
+(* ---------------------------------------------------------------- the class covered *)
 Definition nsteps (d : list block) : nat := length (filter (fun b => match b with BkStep _ => true | _ => false end) d).
 
 Section Class.
@@ -362,32 +524,41 @@ Section Class.
     | None => true
     end.
 
-  Definition aitem_ok (k : ictx) (i : item) : bool :=
+  Definition aitem_ok (m : mode) (k : ictx) (i : item) : bool :=
     match i with
     | IText t => negb (is_nil (toks_text t)) &&      (* implied by block_ok; repeated here *)
-                 (negb (Analysis.x_inline x) ||      (* the oracle consumes text: see iq_split *)
+                 (negb (Analysis.x_inline x) || in_components m ||     (* the oracle consumes text: see iq_split *)
                   Events.is_some (iq_split find_iq (S (length (toks_text t))) (toks_text t) 0))
     | IComp c => inter_ok k c && match cs_kind c with CTm => timer_ok c | _ => true end
     end.
 
-  Definition ablock_ok (k : ictx) (b : block) : bool :=
-    match b with
-    | BkMeta key _ => negb (Analysis.x_modes x && bracketed (clean (toks_text key)))
-    | BkStep items => forallb (aitem_ok k) items
+  (* a `>>` entry while MODES is on: not a mode key with an undocumented value, and not the switch to text mode *)
+  Definition config_ok (b : block) : bool :=
+    negb (Analysis.x_modes x) ||
+    match block_config b with
+    | Some CfBad | Some (CfDefine Analysis.DMText) => false
     | _ => true
     end.
 
-  Fixpoint ablocks_ok (d : list block) (k : ictx) : bool :=
-    match d with
-    | [] => true
-    | b :: r => ablock_ok k b && ablocks_ok r (next_ctx k b)
+  Definition ablock_ok (m : mode) (k : ictx) (b : block) : bool :=
+    match b with
+    | BkMeta _ _ => config_ok b
+    | BkStep items => forallb (aitem_ok m k) items
+    | _ => true
     end.
 
-  (* decidable given the oracles: no mode switch, timers acceptable to ADVANCED_UNITS, every intermediate reference has its target, every `&` a well-formed reference,
-     and the step counter stays within u32 *)
+  Fixpoint ablocks_ok (d : list block) (m : mode) (k : ictx) : bool :=
+    match d with
+    | [] => true
+    | b :: r => ablock_ok m k b && ablocks_ok r (next_mode (Analysis.x_modes x) m b) (next_ctx m k b)
+    end.
+
+  (* decidable given the oracles: every mode switch has a documented value and none goes to text mode, timers
+     acceptable to ADVANCED_UNITS, every intermediate reference has its target, every reference (by `&`, by steps
+     mode, by duplicate-reference mode) is well formed, and the step counter stays within u32 *)
   Definition adoc_ok (d : list block) : bool :=
-    ablocks_ok d ictx0 &&
-    refs_ok ci inherit_igr [] (doc_entries is_igr d ictx0) &&
-    refs_ok ci inherit_cw [] (doc_entries is_cw d ictx0) &&
+    ablocks_ok d mode0 ictx0 &&
+    refs_ok ci inherit_igr [] (doc_entries (Analysis.x_modes x) is_igr d mode0 ictx0) &&
+    refs_ok ci inherit_cw [] (doc_entries (Analysis.x_modes x) is_cw d mode0 ictx0) &&
     (N.of_nat (nsteps d) <? 4294967295).
 End Class.
